@@ -90,16 +90,21 @@ pub enum StaticData {
     OptReadAThenReadA,
     /// `((ReadExpect<A>, Option<Read<C>>), (Read<A>, Read<C>))`: a bundle that only names, then one that provides
     NamingThenProviding,
+    /// a derived bundle that is generic over the resource it reads, instantiated with A ...
+    GenReadA,
+    /// ... and with C
+    GenReadC,
 }
 
 impl StaticData {
-    pub fn all() -> [StaticData; 9] {
-        [StaticData::Unit, StaticData::ReadA, StaticData::WriteC, StaticData::OptReadA, StaticData::OptWriteC, StaticData::ReadExpectA, StaticData::ReadAWriteC, StaticData::OptReadAThenReadA, StaticData::NamingThenProviding]
+    pub fn all() -> [StaticData; 11] {
+        [StaticData::Unit, StaticData::ReadA, StaticData::WriteC, StaticData::OptReadA, StaticData::OptWriteC, StaticData::ReadExpectA, StaticData::ReadAWriteC, StaticData::OptReadAThenReadA, StaticData::NamingThenProviding, StaticData::GenReadA, StaticData::GenReadC]
     }
     pub fn reads(self) -> Vec<u8> {
         match self {
-            StaticData::ReadA | StaticData::OptReadA | StaticData::ReadExpectA | StaticData::ReadAWriteC | StaticData::OptReadAThenReadA => vec![0],
+            StaticData::ReadA | StaticData::OptReadA | StaticData::ReadExpectA | StaticData::ReadAWriteC | StaticData::OptReadAThenReadA | StaticData::GenReadA => vec![0],
             StaticData::NamingThenProviding => vec![0, 2],
+            StaticData::GenReadC => vec![2],
             _ => vec![],
         }
     }
@@ -115,7 +120,8 @@ impl StaticData {
             StaticData::ReadA => vec![0],
             StaticData::WriteC => vec![2],
             StaticData::ReadAWriteC | StaticData::NamingThenProviding => vec![0, 2],
-            StaticData::OptReadAThenReadA => vec![0],
+            StaticData::OptReadAThenReadA | StaticData::GenReadA => vec![0],
+            StaticData::GenReadC => vec![2],
             _ => vec![],
         }
     }
@@ -130,6 +136,8 @@ impl StaticData {
             StaticData::ReadAWriteC => "(Read<A>, Write<C>)",
             StaticData::OptReadAThenReadA => "(Option<Read<A>>, Read<A>)",
             StaticData::NamingThenProviding => "((ReadExpect<A>, Option<Read<C>>), (Read<A>, Read<C>))",
+            StaticData::GenReadA => "GenRead<A>",
+            StaticData::GenReadC => "GenRead<C>",
         }
     }
 }
